@@ -18,6 +18,7 @@ from .. import explore
 from ..engine import known_fingerprints, Violation, worker_harness
 from ..session import BusSession, Obs, NOC_RULE
 from ..models import matchrules as M
+from ..vbox import HarnessDied
 from ..registry import claim
 
 claim('C18', 'model_checking',
@@ -576,6 +577,75 @@ class Session:
         pass
 
 
+class StalledMonitorSession(BusSession):
+    """A monitor that does not read for a while: whatever piles up for it inside the bus, it is owed one copy of every
+    matching message, in order, once it reads again - a monitor is not a recipient that the bus may refuse."""
+
+    def __init__(self, params=None):
+        BusSession.__init__(self, params or {})
+        self.connect_slot('M')
+        self.bus.h.cmd('SRVSOCKBUF 4608')
+        self.connect_slot('A')
+        self.connect_slot('B')
+        self.bus.h.cmd('SOCKBUF %d 0 2048' % self.slots['M'])
+        for l in list(self.inbox):
+            self.take(l)
+
+    def config(self):
+        return B.make_config(policy=POLICY.replace('@EXTRA@', ''), limits={'max_outgoing_bytes': 3000})
+
+
+def task_stalled_monitor(scns):
+    out = []
+    n = 0
+    for filt, kind, count in scns:
+        case = {'stalled_monitor': [filt, kind, count]}
+        try:
+            s = StalledMonitorSession()
+            s.method('B', 'AddMatch', [R.S(b"type='signal',interface='t.i'")])
+            rules = [R.S(x) for x in ([b"type='signal'"] if filt == 'signals' else [])]
+            rep = s.method('M', 'BecomeMonitor', [R.A('s', rules), R.U(0)], iface=b'org.freedesktop.DBus.Monitoring')
+            for l in ('A', 'B', 'M'):
+                s.take(l)
+            s.bus.h.cmd('NODRAIN %d 1' % s.slots['M'])
+            toks = []
+            for i in range(count):
+                c = s.slots['A']
+                ser = s.bus.next_serial(c)
+                tok = b'K%03d' % i + b'p' * 1500
+                toks.append(tok)
+                if kind == 'bcast':
+                    m = R.signal(ser, '/t/b', 't.i', 'Bc', [R.S(tok)])
+                elif kind == 'usignal':
+                    m = R.signal(ser, '/t/b', 't.i', 'Us', [R.S(tok)], dest=s.uname['B'])
+                else:
+                    m = R.method_call(ser, s.uname['B'], '/t/x', 't.i', 'Do', [R.S(tok)], flags=1)
+                s.send('A', m)
+            gotb = [o.body[0][1] for o in s.take('B') if o.body and o.body[0][1][:1] == b'K']
+            if gotb != toks:
+                out.append(Violation('monitor-changes-observations', 'stalled-monitor', 'with a monitor that does not read, B received %d of %d messages (%s)' % (len(gotb), count, kind), case))
+            s.bus.h.cmd('NODRAIN %d 0' % s.slots['M'])
+            for _ in range(40):
+                s.bus.pump()
+                o = s.bus.recvall()
+                s._distribute(o)
+                if not o:
+                    break
+            gotm = [o.body[0][1] for o in s.take('M') if o.body and o.body[0][0] == b's' and o.body[0][1][:1] == b'K' and o.sender == s.uname['A']]
+            wantm = toks if (filt == 'all' or kind != 'call') else []
+            n += 1
+            if gotm != wantm:
+                missing = [t[:4] for t in wantm if t not in gotm]
+                out.append(Violation('monitor-missed-message' if missing else 'monitor-duplicate', 'stalled-monitor',
+                                     'a monitor (filter %s) that did not read while %d %s messages of 1.5 KB went by received %d of them after it resumed reading (max_outgoing_bytes 3000); missing e.g. %r, eof=%s' %
+                                     (filt, count, kind, len(gotm), missing[:3], s.eof.get('M')), case))
+        except HarnessDied as e:
+            from ..engine import crash_violation, worker_bus
+            out.append(crash_violation(e, case))
+            worker_bus().h.close()
+    return {'viol': [v.to_json() for v in out], 'n': n}
+
+
 _second = {}
 
 
@@ -592,6 +662,21 @@ def _second_harness():
 def run(ctx):
     quick = ctx.tier == 'quick'
     depth = 5 if quick else 6
+    # scripted scenarios first: a monitor that falls behind
+    from ..engine import Pool
+    scns = [(f, k, c) for f in ('all', 'signals') for k in ('bcast', 'usignal', 'call') for c in ((4, 12) if quick else (2, 4, 12, 40))]
+    pool = Pool()
+    nst = 0
+    try:
+        for r in pool.imap(task_stalled_monitor, [scns[i:i + 2] for i in range(0, len(scns), 2)]):
+            if '__crash__' in r:
+                ctx.add_violation(Violation('crash', r['__crash__'], r['stderr'], {'task': r['task']}))
+                continue
+            ctx.add_violations(r['viol'])
+            nst += r['n']
+    finally:
+        pool.close()
+    ctx.hit('stalled-monitor-scenarios', nst)
     st = explore.bfs(ctx, FACTORY, {'variant': 'base'}, max_depth=depth, ops_chunk=8)
     extra = []
     for v in ('deny-bus-errors', 'deny-bus-signals'):
@@ -613,4 +698,7 @@ def run(ctx):
 
 
 def replay(case):
+    if 'stalled_monitor' in case:
+        r = task_stalled_monitor([tuple(case['stalled_monitor'])])
+        return [Violation.from_json(v) for v in r['viol']]
     return explore.replay_history(FACTORY, case['params'], case['history'])
